@@ -137,7 +137,7 @@ fn raw_id(h: &hash160::Hash) -> Option<u32> {
 /// raw-pkh atoms: 40-hex hash ↔ decimal id inside a miniscript string
 pub(crate) fn rawpkh_hex_to_ids(s: &str) -> String {
     let mut r = s.to_string();
-    for id in (0..10).chain(200..210) {
+    for id in (0..10).chain(100..104).chain(200..210) {
         let h = ast::raw_pkh(id).to_string();
         if r.contains(&h) { r = r.replace(&h, &id.to_string()); }
     }
@@ -156,7 +156,7 @@ fn rawpkh_ids_to_hex(s: &str) -> String {
                 let end = rest.find(|c: char| !c.is_ascii_digit()).unwrap_or(rest.len());
                 match canon_u32(&rest[..end]) {
                     Some(id) if rest[end..].starts_with(')') => {
-                        if id < 10 || (200..210).contains(&id) { out.push_str(&ast::raw_pkh(id).to_string()); }
+                        if id < 10 || (100..104).contains(&id) || (200..210).contains(&id) { out.push_str(&ast::raw_pkh(id).to_string()); }
                         else { out.push_str(&synth_raw(id).to_string()); }
                     }
                     _ => out.push_str(&rest[..end]),
@@ -455,6 +455,17 @@ pub fn ms_objects(ctx: CtxK, thorough: bool, rng: &mut Rng) -> Vec<Node> {
     } else {
         v.push(Node::Multi(10, ks.clone())); v.push(Node::SortedMulti(3, ks.clone()));
     }
+    // the shared designated fragments (all hash kinds, both lock units, lock pairs, one-child thresholds,
+    // raw key hashes, uncompressed keys in every position in Bare/Legacy, mixed-encoding multis) - every tier
+    v.extend(ast::dimension_corpus(ctx));
+    // multisig at its size limit (one past the limit is not constructible: judged as text by `C msparse`)
+    if ctx == CtxK::Tap {
+        v.push(Node::MultiA(999, (0..999u32).map(|i| 200 + i % 10).collect()));
+        v.push(Node::SortedMultiA(1, (0..999u32).map(|i| 200 + (i * 7) % 10).collect()));
+    } else {
+        v.push(Node::Multi(20, (0..20u32).map(|i| i % 10).collect()));
+        v.push(Node::SortedMulti(1, (0..20u32).map(|i| (i * 3) % 10).collect()));
+    }
     let mut seen = std::collections::BTreeSet::new();
     v.into_iter().filter(|n| constructible(ctx, n) && seen.insert(n.clone())).collect()
 }
@@ -493,6 +504,21 @@ fn deep_or_i(levels: usize) -> Node {
     let mut x = Node::Older(1);
     for _ in 0..levels { x = Node::OrI(bx(Node::Older(1)), bx(x)); }
     x
+}
+
+/// multisig sizes at and one past the limits (20 / 999), as id text: model and implementation must agree
+fn run_multi_limits(out: &mut Out) {
+    let ids = |n: usize| (0..n).map(|i| (i % 10).to_string()).collect::<Vec<_>>().join(",");
+    for (ctx, name, ns) in [(CtxK::Segwitv0, "multi", [19usize, 20, 21]), (CtxK::Legacy, "sortedmulti", [19, 20, 21]), (CtxK::Tap, "multi_a", [998, 999, 1000]), (CtxK::Tap, "sortedmulti_a", [998, 999, 1000])] {
+        for n in ns {
+            for k in [1usize, n] {
+                let s = format!("{}({},{})", name, k, ids(n));
+                let ans = msparse_ctx(ctx, &s);
+                out.count(&format!("multi-limit {} n={} {}", name, n, if ans == "ERR" { "ERR" } else { "ok" }));
+                out.line(&format!("C msparse {} {}", ctx.name(), hex(&s)), &ans);
+            }
+        }
+    }
 }
 
 fn run_deep(out: &mut Out) {
@@ -593,12 +619,16 @@ pub fn run_roundtrip(out: &mut Out, thorough: bool, rng: &mut Rng) {
     ast::emit_defs(out); // key kinds / sizes for the entry-point model behind `J rtsane`
     let ms = run_ms(out, thorough, rng);
     run_deep(out);
+    run_multi_limits(out);
     run_malformed_ms(out, thorough, rng, &ms);
     let descs = run_desc(out, thorough, rng, &ms);
     let pols = run_policies(out, thorough, rng);
     let km = key_material();
     let wps = run_wallet(out, &km);
     run_malformed_other(out, thorough, rng, &descs, &pols, &wps, &km);
+    gap::run_key_values(out, &km);
+    gap::run_secret_descriptors(out, &km);
+    let _ = gap::run_definite(out, &km);
     gap::run_desc_model(out, thorough, rng, &ms);
     gap::run_policies_real(out, thorough, rng, &km);
     gap::run_wallet_gen(out, thorough, rng, &km);
@@ -813,6 +843,23 @@ fn shp_comb(d: usize, rng: &mut Rng) -> Shp {
     for _ in 0..d { s = if rng.coin() { Shp::N(Box::new(s), Box::new(Shp::L)) } else { Shp::N(Box::new(Shp::L), Box::new(s)) }; }
     s
 }
+/// a spine of `d` inner nodes (always descending on the same side) with `bottom` at its end
+fn shp_spine(d: usize, right: bool, bottom: Shp) -> Shp {
+    let mut s = bottom;
+    for _ in 0..d { s = if right { Shp::N(Box::new(Shp::L), Box::new(s)) } else { Shp::N(Box::new(s), Box::new(Shp::L)) }; }
+    s
+}
+fn shp_pair() -> Shp { Shp::N(Box::new(Shp::L), Box::new(Shp::L)) }
+/// the boundary shapes of `TapTreeBuilder`'s depth-128 bookkeeping: TWO sibling pairs at depth 128 (a balanced
+/// 4-leaf subtree under a spine of 126), a pure right / left comb to depth 128, a pair at depth 128 next to a leaf at 127
+fn shp_depth128() -> Vec<Shp> {
+    let four = Shp::N(Box::new(shp_pair()), Box::new(shp_pair()));
+    vec![
+        shp_spine(126, true, four.clone()), shp_spine(126, false, four),
+        shp_spine(128, true, Shp::L), shp_spine(128, false, Shp::L),
+        shp_spine(127, true, shp_pair()), shp_spine(126, true, Shp::N(Box::new(Shp::L), Box::new(shp_pair()))),
+    ]
+}
 fn shp_build(shape: &Shp, leaves: &[Arc<Miniscript<DescriptorPublicKey, Tap>>], next: &mut usize) -> Option<TapTree<DescriptorPublicKey>> {
     match shape {
         Shp::L => { let t = TapTree::leaf(leaves[*next % leaves.len()].clone()); *next += 1; Some(t) }
@@ -888,6 +935,7 @@ fn run_desc(out: &mut Out, thorough: bool, rng: &mut Rng, ms: &BTreeMap<CtxK, Ve
     let mut shapes: Vec<Shp> = vec![Shp::L];
     for n in 2..=(if thorough { 40 } else { 12 }) { shapes.push(shp_random(n, rng)); }
     for d in [1usize, 2, 31, 64, 127, 128] { shapes.push(shp_comb(d, rng)); }
+    shapes.extend(shp_depth128());
     for _ in 0..(if thorough { 40 } else { 6 }) { shapes.push(shp_comb(1 + rng.below(128), rng)); }
     for sh in &shapes {
         let ik = key_or_fallback(out, &xk[rng.below(xk.len())], true);
@@ -990,7 +1038,7 @@ fn run_desc(out: &mut Out, thorough: bool, rng: &mut Rng, ms: &BTreeMap<CtxK, Ve
     valid
 }
 
-fn desc_from_text(out: &mut Out, km: &KeyMaterial, kind: &str, t: &str, valid: &mut Vec<String>) {
+pub(crate) fn desc_from_text(out: &mut Out, km: &KeyMaterial, kind: &str, t: &str, valid: &mut Vec<String>) {
     match parse_desc(t) {
         Ok(d) => { emit_rt_desc(out, km, kind, &d); if valid.len() < 300 { valid.push(d.to_string()); } }
         Err(e) if e == "PANIC" => out.line(&format!("J nopanic desc-fromstr {} PANIC", hex(t)), "ok"),
@@ -1112,6 +1160,12 @@ fn run_policies(out: &mut Out, thorough: bool, rng: &mut Rng) -> Vec<String> {
         Concrete::Or(vec![(1, k("A"))]),
         Concrete::Or(vec![(1, k("A")), (2, k("B")), (3, k("C"))]),
         Concrete::Or(vec![(0, k("A")), (1, k("B"))]),
+        // a weight that does not fit the parser's u32, and n-ary And/Or NESTED inside or / thresh
+        Concrete::Or(vec![(4294967296usize, k("A")), (1, k("B"))]),
+        Concrete::Or(vec![(1, Arc::new(Concrete::And(vec![k("A"), k("B"), k("C")]))), (1, k("D"))]),
+        Concrete::Thresh(Threshold::new(2, vec![Arc::new(Concrete::Or(vec![(1, k("A")), (1, k("B")), (1, k("C"))])), k("D"), k("E")]).unwrap()),
+        // the largest weight the parser reads
+        Concrete::Or(vec![(4294967295usize, k("A")), (1, k("B"))]),
     ];
     for c in &api_conc { emit_rt_conc(out, "concrete-api", c); }
     let sk = |s: &str| Arc::new(Semantic::Key(s.to_string()));
